@@ -324,6 +324,11 @@ func runWorker(worker string, job Job, timeout time.Duration, race bool) *batchO
 	timer.Stop()
 	mu.Lock()
 	defer mu.Unlock()
+	if out.timedOut {
+		// killed by this driver's own wall-clock limit (the worker's per-run watchdog reports genuine wedges itself,
+		// earlier): the unfinished run is simply not counted
+		return out
+	}
 	if err != nil || open {
 		if open {
 			out.crashed = true
@@ -599,7 +604,7 @@ func cmdCheck(args []string) int {
 					if remain < 1 {
 						remain = 1
 					}
-					out := runWorker(b.worker, Job{Property: prop, Tier: tier, Seeds: seeds, First: first, Budget: remain, RunLimitS: m.RunLimitS}, time.Duration(remain+120)*time.Second, m.Race)
+					out := runWorker(b.worker, Job{Property: prop, Tier: tier, Seeds: seeds, First: first, Budget: remain, RunLimitS: m.RunLimitS}, time.Duration(remain+120+m.RunLimitS)*time.Second, m.Race)
 					mu.Lock()
 					for _, r := range out.results {
 						a.add(r)
